@@ -36,6 +36,14 @@ import (
 )
 
 func init() {
+	// The "system" trust store of this process holds the CA that issues the other_ca impostors: code that
+	// trusts anything beyond the configured CA files (e.g. merges the system pool) lets those impostors in.
+	if f, err := os.CreateTemp(os.Getenv("VERIF_TMP"), "verif-system-roots-*.pem"); err == nil {
+		f.Write(newCA("foreign-ca").pem())
+		f.Close()
+		os.Setenv("SSL_CERT_FILE", f.Name())
+		os.Setenv("SSL_CERT_DIR", "/nonexistent-verif-cert-dir")
+	}
 	zerolog.SetGlobalLevel(zerolog.Disabled)
 	log.SetOutput(io.Discard)
 	grpclog.SetLoggerV2(grpclog.NewLoggerV2(io.Discard, io.Discard, io.Discard))
